@@ -25,8 +25,8 @@ RULE = ("module layouts: leading blank lines and comments, a module docstring, d
         "position.  Non-trivial = the docstring does not start on the line after the def and the doctest fails; distinct by "
         "source hash")
 ASSUMPTIONS = [
-    "docstrings are pure string literals without escapes or line continuations (the start line is recovered from the "
-    "newline count, as the library documents)",
+    "no line-feed escapes or backslash line continuations stand IN FRONT of a doctest inside its docstring (lines are "
+    "counted in the evaluated text from the docstring's start; behind the last doctest they are generated)",
     "for a failure inside a helper called from the doctest the reported line is the calling doctest line (outermost "
     "doctest frame)",
 ]
@@ -45,7 +45,8 @@ def required_cells(tier):
              'blank-lines-before-first-block', 'ignored-block-before-doctest',
              'opening-line-differs-from-evaluated-text', 'open:on-the-def-line',
              'traceback-entries-of-inner-frames', 'file-encoding:latin-1',
-             'identifier-normalised-by-the-compiler', 'google-block-opens-with-prose:start-line-under-the-header'])
+             'identifier-normalised-by-the-compiler', 'google-block-opens-with-prose:start-line-under-the-header',
+             'escapes-behind-the-last-doctest'])
 
 
 def gen_doctest(rng, uid, fail_kind):
@@ -182,6 +183,13 @@ def gen_module(rng, seed):
                 if b < nblocks - 1:
                     body += ['Prose between.', '']
             infos.append((first, fm, kind))
+        if pref in ('', 'u', 'U') and rng.random() < 0.3:
+            # escapes and line continuations in the prose BEHIND the last doctest of a non-raw docstring: the evaluated
+            # text no longer has one line per source line, the positions of what stands before it are not touched
+            body += rng.choice([['Closing prose that ends in an escape.\\n', ''],
+                                ['A closing prose line that is continued \\', 'on the next source line.', ''],
+                                ['Tab\\tand form feed\\x0c escapes, then \\', 'a continuation.\\n\\n', '']])
+            feats.add('escapes-behind-the-last-doctest')
         open_same = rng.random() < 0.4 and body[0] == 'Summary text.'
         ind = ' ' * indent
         lines = []
